@@ -68,7 +68,7 @@ def main():
     from props import h26
     if a.replay:
         r = json.load(open(a.replay))["replay"]
-        res = h26.cli(*r["args"])
+        res = getattr(h26, r.get("function", "cli"))(*r["args"])
         print("harness: exit status minus expected =", res)
         return 0 if res == 0 else 1
     rep = Report(PROP, a.tier, "model_checking", a.seed)
@@ -124,7 +124,22 @@ def main():
                 rep.violation(f"{v.func}({argtxt})", f"{v.func}{tuple(args)} returned {res}, expected {want}", {"function": v.func, "args": args})
             else:
                 rep.harness_error(f"counterexample {v.func}({argtxt}) did not reproduce concretely")
+    # CrossHair replaces functools.lru_cache by an uncached call while tracing, so state kept between two invocations in
+    # one process by such a cache is invisible to the traced run: the (finite) domain of `twice` is also swept untraced
+    import itertools
+    nsweep, shown = 0, 0
+    for args in itertools.product(range(3), range(3), range(3), range(3), range(3), range(2), range(2), range(3)):
+        nsweep += 1
+        try:
+            res = h26.twice(*args)
+        except Exception as e:
+            res = repr(e)
+        if res != 0 and shown < 5:
+            shown += 1
+            rep.violation(f"twice{args}", f"two invocations in one process, twice{args}: the second (or first) exit status differs from the number of errors by {res}",
+                          {"function": "twice", "args": list(args)})
     cov = rep.coverage
+    cov["twice_domain_swept_untraced"] = nsweep
     cov["states"] = max(1, n["confirmed"])
     cov["transitions"] = max(1, len(vs))
     cov["traces_validated_against_impl"] = nreal
